@@ -12,6 +12,6 @@ Theorem hand_modelled_sources_unchanged_C20 : PinsC20.pins = [
   ("src/pendulum/time.py::Time.__sub__"%string, "d9eecc5ea64fb02dbe35"%string);
   ("src/pendulum/time.py::Time.__rsub__"%string, "92996dbcf4c0455d9076"%string);
   ("src/pendulum/datetime.py::DateTime.at"%string, "87cf23fb27859e45173d"%string);
-  ("src/pendulum/datetime.py::DateTime.time"%string, "1d6d700b269c5f5bcda9"%string)].
+  ("src/pendulum/datetime.py::DateTime.time"%string, "a3e854c16889b146f97c"%string)].
 Proof. exact eq_refl. Qed.
 Print Assumptions hand_modelled_sources_unchanged_C20.
